@@ -84,7 +84,7 @@ int main(int argc, char **argv) {
   long streams = 0, decodes = 0, enc_failed = 0; std::map<std::string, long> paths;
   int nm = thorough ? 12000 : 700;
   for (int i = 0; i < nm; i++) {
-    GenInfo gi; auto m = gen_mesh(r, i % 5, gi); if (!m) continue;
+    GenInfo gi; auto m = gen_mesh(r, i % 6, gi); if (!m) continue;
     for (int k = 0; k < 3; k++) {
       Encoder e; int method = r.chance(75) ? MESH_EDGEBREAKER_ENCODING : MESH_SEQUENTIAL_ENCODING, speed = (int)r.below(11), sub = r.chance(50) ? MESH_EDGEBREAKER_VALENCE_ENCODING : MESH_EDGEBREAKER_STANDARD_ENCODING;
       e.SetEncodingMethod(method); e.SetSpeedOptions(speed, speed); if (method == MESH_EDGEBREAKER_ENCODING) e.options().SetGlobalInt("edgebreaker_method", sub);
